@@ -326,6 +326,7 @@ func ruleForeignTablesMerged(c *Ctx, rule string) {
 		}
 	}
 	// merge loops: a range over F.resolvedInfos whose body updates the current side table
+	judgedMerge := map[*ssa.MapUpdate]bool{}
 	mergeBlocks := func(f ssa.Value) map[*ssa.BasicBlock]bool {
 		out := map[*ssa.BasicBlock]bool{}
 		for _, fi := range fam {
@@ -349,6 +350,24 @@ func ruleForeignTablesMerged(c *Ctx, rule string) {
 					if ext, ok := mu.Value.(*ssa.Extract); ok {
 						if nx, ok := ext.Tuple.(*ssa.Next); ok && nx.Iter == rg {
 							updates = true
+							if !judgedMerge[mu] {
+								judgedMerge[mu] = true
+								// the current document's own entries win: an entry is copied only where there is none yet
+								onlyNew := false
+								for _, g := range guardsOf(mu) {
+									x, k, equal, ok := eqConst(g)
+									if !ok || !k.IsNil() || !equal {
+										continue
+									}
+									if lk, ok := x.(*ssa.Lookup); ok && (lk.Index == mu.Key || sharesSource(lk.Index, mu.Key)) {
+										if r3, st3 := c.accessPath(lk.X); isCurrent(r3) && pathString(st3) == "Resolved.resolvedInfos" {
+											onlyNew = true
+										}
+									}
+								}
+								c.R.Check(onlyNew, rule, core.FuncName(mu.Parent())+":merge:without-overwriting", c.pos(mu), "an entry of the other document's side table is copied only where the current one has none",
+									"the merge of another document's side table overwrites entries the current document already has: a schema object that both documents contain (an alias of the root served by the Loader) gets the other document's base URI and resolved references, so its $ref is bound under the wrong base")
+							}
 						}
 					}
 				}
